@@ -7,7 +7,7 @@ m = re.search(r"Definition cases : list (\w+) := \[\n", s)
 ty = m.group(1)
 head = s[:m.start()]
 body = s[m.end():s.index("\n].\nDefinition M")]
-ctor = {"rcase": "mkr", "tcase": "mktc", "cast_case": "mkc"}.get(ty, None)
+ctor = {"rcase": "mkr", "tcase": "mktc", "cast_case": "mkc", "jcase": "mkjc", "hcase": "mkhc"}.get(ty, None)
 parts = body.split(";\n" + ctor + " ")
 c = parts[idx]
 if not c.startswith(ctor):
